@@ -13,7 +13,9 @@ import (
 	"sort"
 	"strings"
 	"sync"
+	"time"
 
+	"github.com/containerd/nri/pkg/adaptation"
 	"github.com/containerd/nri/pkg/api"
 
 	"verif/harness/internal/coqfmt"
@@ -35,6 +37,10 @@ type pool struct {
 }
 
 func newPool(base string, idx []string, regOrder []int) (*pool, error) {
+	// time-outs are not under test in this driver: a scripted plugin that is merely slow under load (race
+	// detector, concurrent callers, a busy machine) must not be dropped by the runtime
+	adaptation.SetPluginRegistrationTimeout(60 * time.Second)
+	adaptation.SetPluginRequestTimeout(60 * time.Second)
 	r, err := rt.New(base)
 	if err != nil {
 		return nil, err
